@@ -26,15 +26,25 @@ pub mod c40;
 pub mod hist;
 pub mod misc;
 pub mod patches;
+pub mod rich;
 pub mod seq;
 pub mod syncp;
 
 pub fn all() -> Vec<PropDef> {
-    vec![c01::def(), c02::def(), c04::def(), c05::def(), c10::def(), c11::def(), c12::def(), c13::def(), c14::def(), c15::def(), c15::def_c17(), c16::def(), c16::def_c39(), c40::def(), c38::def(), c06::def(), syncp::def_c20(), syncp::def_c21(), syncp::def_c22(), syncp::def_c23(), c19::def(), c19::def_c30(), hist::def_c07(), hist::def_c29(), hist::def_c28(), patches::def_c09(), patches::def_c08(), misc::def_c31(), misc::def_c32(), misc::def_c37(), c18::def(), seq::def_c03(), seq::def_c24()]
+    vec![c01::def(), c02::def(), c04::def(), c05::def(), c10::def(), c11::def(), c12::def(), c13::def(), c14::def(), c15::def(), c15::def_c17(), c16::def(), c16::def_c39(), c40::def(), c38::def(), c06::def(), syncp::def_c20(), syncp::def_c21(), syncp::def_c22(), syncp::def_c23(), c19::def(), c19::def_c30(), hist::def_c07(), hist::def_c29(), hist::def_c28(), patches::def_c09(), patches::def_c08(), misc::def_c31(), misc::def_c32(), misc::def_c37(), c18::def(), seq::def_c03(), seq::def_c24(), rich::def_c27(), rich::def_c25(), rich::def_c26()]
 }
 
 pub fn find(id: &str) -> Option<PropDef> {
     all().into_iter().find(|p| p.id == id)
+}
+
+/// signature of an observation failure (one class per kind of inconsistent read)
+pub fn read_sig(detail: &str) -> String {
+    if detail.contains("twice") {
+        "read-inconsistency:keys-lists-key-twice".to_string()
+    } else {
+        format!("read-inconsistency:{}", sig_of_detail(detail))
+    }
 }
 
 /// observe a replica's current state; an observation failure is reported under `oracle`
@@ -43,7 +53,7 @@ pub fn observe_replica(w: &World, r: usize, property: &str, oracle: &str) -> Res
         violation(
             property,
             oracle,
-            &if e.0.contains("twice") { "read-inconsistency:keys-lists-key-twice".to_string() } else { format!("read-inconsistency:{}", sig_of_detail(&e.0)) },
+            &read_sig(&e.0),
             w.step,
             format!("replica {r}: {}", e.0),
         )
